@@ -113,9 +113,24 @@ def path_flags(c, job):
     wpilib.ENV = E()
     ntcore.reset()
     cls, order = build(c, smm, job["layout"], job["n"])
-    firsts = [lift_b(f) for _, (k, f, _) in order.items()]
-    nfirst = z3.Sum([z3.If(f, 1, 0) for f in firsts]) if firsts else z3.IntVal(0)
+    if c.symbolic:
+        firsts = [lift_b(f) for _, (k, f, _) in order.items()]
+        nfirst = z3.Sum([z3.If(f, 1, 0) for f in firsts]) if firsts else z3.IntVal(0)
+        mk = SBool
+        conj = z3.And
+    else:
+        nfirst = sum(1 for _, (k, f, _) in order.items() if f)
+        mk = bool
+        conj = lambda a, b: a and b
     ndefault = sum(1 for _, (k, _, _) in order.items() if k == "default")
+    if c.choose("bases_first", 2):
+        c.reach("bases-instantiated-first")
+        for b in reversed(cls.__mro__[1:]):
+            if b is not smm.StateMachine and isinstance(b, type) and issubclass(b, smm.StateMachine):
+                try:
+                    b()
+                except Exception:
+                    pass
     try:
         sm = cls()
         out = "ok"
@@ -129,13 +144,13 @@ def path_flags(c, job):
         out = "other:" + repr(e)[:80]
     c.summary = lambda: dict(layout=job["layout"], outcome=out, states=[(n, k) for n, (k, _, _) in order.items()])
     c.reach("outcome-" + out.split(":")[0])
-    valid = SBool(z3.And(nfirst == 1, z3.BoolVal(ndefault <= 1)))
+    valid = mk(conj(nfirst == 1, z3.BoolVal(ndefault <= 1) if c.symbolic else ndefault <= 1))
     c.prove("C12.inst accepted-iff-one-first-and-at-most-one-default", valid if out == "ok" else s_not(valid), info=dict(outcome=out, layout=job["layout"]))
     c.prove("C12.inst only-documented-errors", out in ("ok", "nofirst", "multifirst", "multidefault"), info=dict(outcome=out))
     if out == "nofirst":
-        c.prove("C12.inst NoFirstStateError-means-no-first", SBool(nfirst == 0))
+        c.prove("C12.inst NoFirstStateError-means-no-first", mk(nfirst == 0))
     elif out == "multifirst":
-        c.prove("C12.inst MultipleFirstStatesError-means-several", SBool(nfirst >= 2))
+        c.prove("C12.inst MultipleFirstStatesError-means-several", mk(nfirst >= 2))
     elif out == "multidefault":
         c.prove("C12.inst MultipleDefaultStatesError-means-several", ndefault >= 2)
     if out == "ok":
@@ -267,7 +282,7 @@ class C12(Spec):
         return dict(jobs=self.jobs(tier), flags="first / must_finish of every state symbolic; decorator kind and layout enumerated")
 
     def reach_required(self, tier):
-        return ["outcome-ok", "outcome-nofirst", "outcome-multifirst", "outcome-multidefault", "accepted", "bad-signature", "name-collision", "alias", "owner"]
+        return ["outcome-ok", "outcome-nofirst", "outcome-multifirst", "outcome-multidefault", "accepted", "bases-instantiated-first", "bad-signature", "name-collision", "alias", "owner"]
 
     def path_fn(self, c, job):
         if job["kind"] == "flags":
